@@ -877,7 +877,9 @@ def write_cache_entry(
             entry.mode,
             entry.uid,
             entry.gid,
-            entry.size & 0xFFFFFFFF,
+            # like git's munge_st_size(): a non-empty file whose size is a
+            # multiple of 4 GiB must not look empty (racily clean)
+            (entry.size & 0xFFFFFFFF) or (0x80000000 if entry.size else 0),
             hex_to_sha(entry.sha),
             flags,
         )
